@@ -25,11 +25,22 @@
      FetchCallback         stream callbacker: callbacks run in submission order; verifiers.Go
      VerifyDone            verifierTask:320     SanityCheckNewHeight
      VerifyFail            verifierTask:326-335 resetStreams
-     StoreSkip / StoreErr / StoreMismatch / StoreOK   storeTask:350-414
+     StoreSkip / StoreErr / StoreMismatch             storeTask:350-374
+     StoreApply / StoreAck / StorePost                storeTask:361 (Store returns nil), :382 (listener),
+                                                      :384-402 (mode switch, highest, notifications)
      RevertStart           callback created at fetcherTask:190-196
-     RevertCall / RevertReturn / RevertUncond / RevertDo / RevertBreak   revertTask:422-452
+     RevertCall / RevertReturn / RevertUncond / RevertDo / RevertAck / RevertBreak / RevertEnd
+                           revertTask:422-452, revertHead:532-555 (RevertHead, currReorg, listener)
      Restart               syncBlocks:488-505   wait for both streams, restart at height+1
-     PollCall / PollReturn pollLatest:608-613
+     PollCall / PollReturn / PollApply   pollLatest:608-613 (call, answer, highestBlockHeader.Store)
+
+   Granularity.  A store (a revert) takes effect inside Blockchain.Store (RevertHead); the listener
+   that makes it OBSERVABLE runs a little later on the same goroutine, and the bookkeeping that other
+   goroutines can see (stream reset, highestBlockHeader) later still.  With Fine = TRUE these are
+   separate steps (Apply / Ack / Post, End), which is what trace validation needs: another goroutine
+   may act in between.  With Fine = FALSE each group is one atomic step (a sound reduction for the
+   design-level properties: the steps in a group belong to one goroutine and only the first one
+   changes the chain).
 
    Known design finding (DESIGN.md H13), CONSTANT switch FixH13:
      FALSE = the code as it is: after ErrParentDoesNotMatchHead storeTask calls
@@ -61,20 +72,21 @@ CONSTANTS
   MaxPolls,        \* pollLatest iterations (one per minute in the code)
   FixH13,
   FixRevertVerify,
-  FixUnderflow
+  FixUnderflow,
+  Fine             \* TRUE: apply / acknowledge / post-process are separate steps
 
 VARIABLES
   versions, nextTag, srcSteps, nReorgs, faults,           \* source / environment
   local,                                                   \* the node's chain
-  cancelled, nextFetch, weff, fq, vq, rv,                  \* stream generation, queues, revert task
+  cancelled, nextFetch, weff, fq, vq, rv, sp,              \* stream generation, queues, revert task, store in progress
   highest, catchUp, poll, polls,                           \* highestBlockHeader, catchUpMode, pollLatest
   curr,                                                    \* currReorg
   revSince, seenVers                                       \* history: reverted since last store; versions heard from
 
 srcVars  == <<versions, nextTag, srcSteps, nReorgs>>
-pipeVars == <<cancelled, nextFetch, weff, fq, vq, rv>>
+pipeVars == <<cancelled, nextFetch, weff, fq, vq, rv, sp>>
 modeVars == <<highest, catchUp, poll, polls>>
-vars == <<versions, nextTag, srcSteps, nReorgs, faults, local, cancelled, nextFetch, weff, fq, vq, rv,
+vars == <<versions, nextTag, srcSteps, nReorgs, faults, local, cancelled, nextFetch, weff, fq, vq, rv, sp,
           highest, catchUp, poll, polls, curr, revSince, seenVers>>
 
 INF == 1000000                       \* uint64 underflow of "height - 1" / "height - 2"
@@ -93,15 +105,16 @@ HeightOf(t) ==
   LET v == CHOOSE v \in 1..Len(versions) : t \in Range(versions[v])
   IN (CHOOSE k \in 1..Len(versions[v]) : versions[v][k] = t) - 1
 
-NoRv    == [on |-> FALSE, lv |-> 0, st |-> "iter", v0 |-> 0, rid |-> 0, cont |-> FALSE, why |-> "none"]
+NoRv    == [on |-> FALSE, lv |-> 0, st |-> "iter", v0 |-> 0, rid |-> 0, cont |-> FALSE, why |-> "none", tag |-> 0, how |-> "none"]
+NoSp    == [on |-> FALSE, acked |-> FALSE, tag |-> 0, h |-> 0, rid |-> 0, hs |-> -1]
 NoReorg == [on |-> FALSE, s |-> 0, e |-> 0]
-IdlePoll == [st |-> "idle", v0 |-> 0, rid |-> 0]
+IdlePoll == [st |-> "idle", v0 |-> 0, rid |-> 0, got |-> -1]
 NewTask(h) == [h |-> h, st |-> "run", v0 |-> 0, rid |-> 0, L |-> 0, kind |-> "none", blk |-> 0, bad |-> FALSE, lv |-> 0]
 
 Init ==
   /\ versions = << [j \in 1..InitLen |-> j] >> /\ nextTag = InitLen + 1 /\ srcSteps = 0 /\ nReorgs = 0 /\ faults = 0
   /\ local = <<>>
-  /\ cancelled = FALSE /\ nextFetch = 0 /\ weff = 1 /\ fq = <<>> /\ vq = <<>> /\ rv = NoRv
+  /\ cancelled = FALSE /\ nextFetch = 0 /\ weff = 1 /\ fq = <<>> /\ vq = <<>> /\ rv = NoRv /\ sp = NoSp
   /\ highest = -1 /\ catchUp = FALSE /\ poll = IdlePoll /\ polls = 0
   /\ curr = NoReorg /\ revSince = <<>> /\ seenVers = {}
 
@@ -182,22 +195,22 @@ Spawn ==
   /\ ~cancelled /\ Running(fq) < weff /\ Len(fq) < weff + 2
   /\ fq' = Append(fq, NewTask(nextFetch))
   /\ nextFetch' = nextFetch + 1
-  /\ UNCHANGED <<srcVars, faults, local, cancelled, weff, vq, rv, modeVars, curr, revSince, seenVers>>
+  /\ UNCHANGED <<srcVars, faults, local, cancelled, weff, vq, rv, sp, modeVars, curr, revSince, seenVers>>
 
 FetchExit(i) ==                       \* top of the retry loop: ctx.Done
   /\ fq[i].st = "run" /\ cancelled
   /\ SetFq(i, [fq[i] EXCEPT !.st = "done", !.kind = "none"])
-  /\ UNCHANGED <<srcVars, faults, local, cancelled, nextFetch, weff, vq, rv, modeVars, curr, revSince, seenVers>>
+  /\ UNCHANGED <<srcVars, faults, local, cancelled, nextFetch, weff, vq, rv, sp, modeVars, curr, revSince, seenVers>>
 
 FetchCheck(i) ==                      \* top of the retry loop: ctx not done (a reset may still slip in before the call)
   /\ fq[i].st = "run" /\ ~cancelled
   /\ SetFq(i, [fq[i] EXCEPT !.st = "go"])
-  /\ UNCHANGED <<srcVars, faults, local, cancelled, nextFetch, weff, vq, rv, modeVars, curr, revSince, seenVers>>
+  /\ UNCHANGED <<srcVars, faults, local, cancelled, nextFetch, weff, vq, rv, sp, modeVars, curr, revSince, seenVers>>
 
 FetchCall(i, rid) ==                  \* observable: request BlockByNumber(h)
   /\ fq[i].st = "go"
   /\ SetFq(i, [fq[i] EXCEPT !.st = "wait", !.v0 = Len(versions), !.rid = rid])
-  /\ UNCHANGED <<srcVars, faults, local, cancelled, nextFetch, weff, vq, rv, modeVars, curr, revSince, seenVers>>
+  /\ UNCHANGED <<srcVars, faults, local, cancelled, nextFetch, weff, vq, rv, sp, modeVars, curr, revSince, seenVers>>
 
 FetchReturn(i, resp) ==               \* observable: the answer is delivered
   /\ fq[i].st = "wait"
@@ -207,19 +220,19 @@ FetchReturn(i, resp) ==               \* observable: the answer is delivered
   /\ IF resp.r = "err"
      THEN SetFq(i, [fq[i] EXCEPT !.st = "chk"])
      ELSE SetFq(i, [fq[i] EXCEPT !.st = "done", !.kind = "block", !.blk = resp.tag, !.bad = (resp.r = "bad")])
-  /\ UNCHANGED <<srcVars, local, cancelled, nextFetch, weff, vq, rv, modeVars, curr, revSince>>
+  /\ UNCHANGED <<srcVars, local, cancelled, nextFetch, weff, vq, rv, sp, modeVars, curr, revSince>>
 
 IsRevFast(i) ==                       \* exit 1 (also: Height() fails on an empty chain)
   /\ fq[i].st = "chk"
   /\ (Len(local) = 0 \/ Len(local) # fq[i].h)
   /\ SetFq(i, [fq[i] EXCEPT !.st = "run"])
-  /\ UNCHANGED <<srcVars, faults, local, cancelled, nextFetch, weff, vq, rv, modeVars, curr, revSince, seenVers>>
+  /\ UNCHANGED <<srcVars, faults, local, cancelled, nextFetch, weff, vq, rv, sp, modeVars, curr, revSince, seenVers>>
 
 IsRevCall(i, rid) ==                  \* observable: request BlockHeaderLatest
   /\ fq[i].st = "chk"
   /\ Len(local) > 0 /\ Len(local) = fq[i].h
   /\ SetFq(i, [fq[i] EXCEPT !.st = "lwait", !.L = Len(local) - 1, !.v0 = Len(versions), !.rid = rid])
-  /\ UNCHANGED <<srcVars, faults, local, cancelled, nextFetch, weff, vq, rv, modeVars, curr, revSince, seenVers>>
+  /\ UNCHANGED <<srcVars, faults, local, cancelled, nextFetch, weff, vq, rv, sp, modeVars, curr, revSince, seenVers>>
 
 IsRevReturn(i, resp) ==               \* observable: exits 2 and 3
   /\ fq[i].st = "lwait"
@@ -235,7 +248,7 @@ IsRevReturn(i, resp) ==               \* observable: exits 2 and 3
           ELSE SetFq(i, [fq[i] EXCEPT !.st = "done", !.kind = "revert",
                                        !.lv = IF resp.h = 0 THEN (IF FixUnderflow THEN 0 ELSE INF)
                                              ELSE resp.h - 1])
-  /\ UNCHANGED <<srcVars, local, cancelled, nextFetch, weff, vq, rv, modeVars, curr, revSince>>
+  /\ UNCHANGED <<srcVars, local, cancelled, nextFetch, weff, vq, rv, sp, modeVars, curr, revSince>>
 
 \* fetch callbacks run in submission order; each submits a verifier task (blocks while the pool is full)
 FetchCallback ==
@@ -247,7 +260,7 @@ FetchCallback ==
              [] fq[1].kind = "revert" -> Append(vq, [kind |-> "revert", blk |-> 0, bad |-> FALSE,
                                                    h |-> fq[1].h, rid |-> 0, st |-> "done", lv |-> fq[1].lv])
              [] OTHER -> vq
-  /\ UNCHANGED <<srcVars, faults, local, cancelled, nextFetch, weff, rv, modeVars, curr, revSince, seenVers>>
+  /\ UNCHANGED <<srcVars, faults, local, cancelled, nextFetch, weff, rv, sp, modeVars, curr, revSince, seenVers>>
 
 -----------------------------------------------------------------------------
 (* Verifiers; their callbacks (store / revert) run in submission order on one goroutine *)
@@ -255,26 +268,26 @@ FetchCallback ==
 VerifyDone(i) ==                      \* SanityCheckNewHeight finished (its verdict is ~bad)
   /\ vq[i].st = "run"
   /\ vq' = [vq EXCEPT ![i].st = "done"]
-  /\ UNCHANGED <<srcVars, faults, local, cancelled, nextFetch, weff, fq, rv, modeVars, curr, revSince, seenVers>>
+  /\ UNCHANGED <<srcVars, faults, local, cancelled, nextFetch, weff, fq, rv, sp, modeVars, curr, revSince, seenVers>>
 
-CallbackReady == ~rv.on /\ Len(vq) > 0 /\ vq[1].st = "done"
+CallbackReady == ~rv.on /\ ~sp.on /\ Len(vq) > 0 /\ vq[1].st = "done"
 StartRevert(lv, why) == rv' = [NoRv EXCEPT !.on = TRUE, !.lv = lv, !.st = "iter", !.why = why]
 
 VerifyFail ==                         \* sanity check failed: resetStreams()
   /\ CallbackReady /\ vq[1].kind = "block" /\ vq[1].bad
   /\ vq' = Tail(vq) /\ cancelled' = TRUE
-  /\ UNCHANGED <<srcVars, faults, local, nextFetch, weff, fq, rv, modeVars, curr, revSince, seenVers>>
+  /\ UNCHANGED <<srcVars, faults, local, nextFetch, weff, fq, rv, sp, modeVars, curr, revSince, seenVers>>
 
 StoreSkip ==                          \* storeTask sees ctx.Done
   /\ CallbackReady /\ vq[1].kind = "block" /\ ~vq[1].bad /\ cancelled
   /\ vq' = Tail(vq)
-  /\ UNCHANGED <<srcVars, faults, local, cancelled, nextFetch, weff, fq, rv, modeVars, curr, revSince, seenVers>>
+  /\ UNCHANGED <<srcVars, faults, local, cancelled, nextFetch, weff, fq, rv, sp, modeVars, curr, revSince, seenVers>>
 
 StoreErr ==                           \* "expected block #n": any error but ErrParentDoesNotMatchHead
   /\ CallbackReady /\ vq[1].kind = "block" /\ ~vq[1].bad /\ ~cancelled
   /\ vq[1].h # Len(local)
   /\ vq' = Tail(vq) /\ cancelled' = TRUE
-  /\ UNCHANGED <<srcVars, faults, local, nextFetch, weff, fq, rv, modeVars, curr, revSince, seenVers>>
+  /\ UNCHANGED <<srcVars, faults, local, nextFetch, weff, fq, rv, sp, modeVars, curr, revSince, seenVers>>
 
 StoreMismatch ==                      \* ErrParentDoesNotMatchHead -> revertTask(n-2)  [H13]
   /\ CallbackReady /\ vq[1].kind = "block" /\ ~vq[1].bad /\ ~cancelled
@@ -282,27 +295,47 @@ StoreMismatch ==                      \* ErrParentDoesNotMatchHead -> revertTask
   /\ vq' = Tail(vq)
   /\ LET n == vq[1].h IN
      StartRevert(IF FixH13 THEN n - 1 ELSE (IF n >= 2 THEN n - 2 ELSE INF), "parent")
-  /\ UNCHANGED <<srcVars, faults, local, cancelled, nextFetch, weff, fq, modeVars, curr, revSince, seenVers>>
+  /\ UNCHANGED <<srcVars, faults, local, cancelled, nextFetch, weff, fq, sp, modeVars, curr, revSince, seenVers>>
 
-StoreOK ==                            \* observable: Stored(b); reorg + newHeads notifications
+\* what storeTask does after the listener: catch-up mode switch (resets the streams), highest block,
+\* reorg notification (currReorg is cleared) and newHeads notification.  hs is the value of
+\* highestBlockHeader storeTask loaded; pollLatest may have replaced it since, in which case the
+\* CompareAndSwap fails and the poller's value stays.
+PostOps(n, hs) ==
+  LET behind == hs > n + Lag IN
+  /\ IF hs >= 0 /\ catchUp # behind
+     THEN cancelled' = TRUE /\ catchUp' = behind
+     ELSE UNCHANGED <<cancelled, catchUp>>
+  /\ highest' = IF hs < n /\ highest = hs THEN n ELSE highest
+  /\ curr' = NoReorg /\ revSince' = <<>>
+
+StoreApply ==                         \* Blockchain.Store returned nil: the chain has a new head
   /\ CallbackReady /\ vq[1].kind = "block" /\ ~vq[1].bad /\ ~cancelled
   /\ vq[1].h = Len(local) /\ ParentOf(vq[1].blk) = HeadTag(local)
   /\ vq' = Tail(vq)
   /\ local' = Append(local, vq[1].blk)
-  /\ LET n == vq[1].h
-         behind == highest > n + Lag
-     IN /\ IF highest >= 0 /\ catchUp # behind
-           THEN cancelled' = TRUE /\ catchUp' = behind
-           ELSE UNCHANGED <<cancelled, catchUp>>
-        /\ highest' = IF highest < n THEN n ELSE highest
-  /\ curr' = NoReorg /\ revSince' = <<>>
+  /\ IF Fine
+     THEN /\ sp' = [on |-> TRUE, acked |-> FALSE, tag |-> vq[1].blk, h |-> vq[1].h, rid |-> vq[1].rid, hs |-> -1]
+          /\ UNCHANGED <<cancelled, catchUp, highest, curr, revSince>>
+     ELSE PostOps(vq[1].h, highest) /\ UNCHANGED sp
   /\ UNCHANGED <<srcVars, faults, nextFetch, weff, fq, rv, poll, polls, seenVers>>
+
+StoreAck ==                           \* observable: Stored(b) (OnSyncStepDone(OpStore))
+  /\ sp.on /\ ~sp.acked
+  /\ sp' = [sp EXCEPT !.acked = TRUE, !.hs = highest]      \* highestBlockHeader.Load() follows the listener
+  /\ UNCHANGED <<srcVars, faults, local, cancelled, nextFetch, weff, fq, vq, rv, modeVars, curr, revSince, seenVers>>
+
+StorePost ==
+  /\ sp.on /\ sp.acked
+  /\ PostOps(sp.h, sp.hs)
+  /\ sp' = NoSp
+  /\ UNCHANGED <<srcVars, faults, local, nextFetch, weff, fq, vq, rv, poll, polls, seenVers>>
 
 RevertStart ==                        \* the callback built by fetcherTask after isReverting said "reorg"
   /\ CallbackReady /\ vq[1].kind = "revert"
   /\ vq' = Tail(vq)
   /\ StartRevert(vq[1].lv, "latest")
-  /\ UNCHANGED <<srcVars, faults, local, cancelled, nextFetch, weff, fq, modeVars, curr, revSince, seenVers>>
+  /\ UNCHANGED <<srcVars, faults, local, cancelled, nextFetch, weff, fq, sp, modeVars, curr, revSince, seenVers>>
 
 \* revertHead(): RevertHead + currReorg bookkeeping
 RevertHeadOp ==
@@ -311,61 +344,79 @@ RevertHeadOp ==
              ELSE [on |-> TRUE, s |-> HeadTag(local), e |-> HeadTag(local)]
   /\ revSince' = Append(revSince, HeadTag(local))
 
-FinishRevert == rv' = NoRv /\ cancelled' = TRUE          \* defer resetStreams()
+\* after a revert took effect (cont: the loop goes on): acknowledge (listener), then loop or end the task
+AfterRevert(cont, how) ==
+  IF Fine THEN rv' = [rv EXCEPT !.st = "ack", !.cont = cont, !.tag = HeadTag(local), !.how = how] /\ UNCHANGED cancelled
+  ELSE IF cont THEN rv' = [rv EXCEPT !.st = "iter"] /\ UNCHANGED cancelled
+  ELSE rv' = NoRv /\ cancelled' = TRUE
+\* the task ends: defer resetStreams()
+EndTask ==
+  IF Fine THEN rv' = [rv EXCEPT !.st = "fin"] /\ UNCHANGED cancelled
+  ELSE rv' = NoRv /\ cancelled' = TRUE
 
 RevertBreak ==                        \* HeadsHeader fails on an empty chain
   /\ rv.on /\ rv.st = "iter" /\ Len(local) = 0
-  /\ FinishRevert
-  /\ UNCHANGED <<srcVars, faults, local, nextFetch, weff, fq, vq, modeVars, curr, revSince, seenVers>>
+  /\ EndTask
+  /\ UNCHANGED <<srcVars, faults, local, nextFetch, weff, fq, vq, sp, modeVars, curr, revSince, seenVers>>
 
-RevertUncond ==                       \* observable: Reverted(head), head above lastPossiblyValidHeight
+RevertUncond ==                       \* the head is above lastPossiblyValidHeight: RevertHead took effect
   /\ rv.on /\ rv.st = "iter" /\ Len(local) > 0 /\ Len(local) - 1 > rv.lv
   /\ RevertHeadOp
-  /\ UNCHANGED <<srcVars, faults, pipeVars, modeVars, seenVers>>
+  /\ AfterRevert(TRUE, "uncond")
+  /\ UNCHANGED <<srcVars, faults, nextFetch, weff, fq, vq, sp, modeVars, seenVers>>
 
 RevertCall(rid) ==                    \* observable: request BlockByNumber(head.Number)
   /\ rv.on /\ rv.st = "iter" /\ Len(local) > 0 /\ Len(local) - 1 <= rv.lv
   /\ rv' = [rv EXCEPT !.st = "wait", !.v0 = Len(versions), !.rid = rid]
-  /\ UNCHANGED <<srcVars, faults, local, cancelled, nextFetch, weff, fq, vq, modeVars, curr, revSince, seenVers>>
+  /\ UNCHANGED <<srcVars, faults, local, cancelled, nextFetch, weff, fq, vq, sp, modeVars, curr, revSince, seenVers>>
 
 RevertReturn(resp) ==                 \* observable: the answer; compare hashes
   /\ rv.on /\ rv.st = "wait"
   /\ LegalBlockResp(rv.v0, Len(local) - 1, resp, cancelled)
   /\ faults' = faults + BlockRespCost(rv.v0, Len(local) - 1, resp, cancelled)
   /\ seenVers' = Heard(resp)
-  /\ CASE resp.r = "err" -> FinishRevert
+  /\ LET realCont == ParentOf(resp.tag) # ParentOf(HeadTag(local)) IN
+     CASE resp.r = "err" -> EndTask
        [] resp.r = "ok" ->
-            IF resp.tag = HeadTag(local) THEN FinishRevert
-            ELSE rv' = [rv EXCEPT !.st = "rev", !.cont = (ParentOf(resp.tag) # ParentOf(HeadTag(local)))]
-                 /\ UNCHANGED cancelled
+            IF resp.tag = HeadTag(local) THEN EndTask
+            ELSE rv' = [rv EXCEPT !.st = "rev", !.cont = realCont] /\ UNCHANGED cancelled
        [] resp.r = "bad" ->
             \* the code compares Hash / ParentHash of an UNVERIFIED block
-            IF FixRevertVerify THEN FinishRevert
+            IF FixRevertVerify THEN EndTask
             ELSE LET differs == (resp.corr = "hash") \/ resp.tag # HeadTag(local)
-                     cont    == (resp.corr = "parent") \/ ParentOf(resp.tag) # ParentOf(HeadTag(local))
+                     cont    == (resp.corr = "parent") \/ realCont
                  IN IF differs THEN rv' = [rv EXCEPT !.st = "rev", !.cont = cont] /\ UNCHANGED cancelled
-                    ELSE FinishRevert
-  /\ UNCHANGED <<srcVars, local, nextFetch, weff, fq, vq, modeVars, curr, revSince>>
+                    ELSE EndTask
+  /\ UNCHANGED <<srcVars, local, nextFetch, weff, fq, vq, sp, modeVars, curr, revSince>>
 
-RevertDo ==                           \* observable: Reverted(head) after a hash comparison
+RevertDo ==                           \* RevertHead took effect after a hash comparison
   /\ rv.on /\ rv.st = "rev"
   /\ RevertHeadOp
-  /\ IF rv.cont THEN rv' = [rv EXCEPT !.st = "iter"] /\ UNCHANGED cancelled
-     ELSE FinishRevert
-  /\ UNCHANGED <<srcVars, faults, nextFetch, weff, fq, vq, modeVars, seenVers>>
+  /\ AfterRevert(rv.cont, "compare")
+  /\ UNCHANGED <<srcVars, faults, nextFetch, weff, fq, vq, sp, modeVars, seenVers>>
+
+RevertAck ==                          \* observable: Reverted(b) (OnReorg)
+  /\ rv.on /\ rv.st = "ack"
+  /\ rv' = [rv EXCEPT !.st = IF rv.cont THEN "iter" ELSE "fin"]
+  /\ UNCHANGED <<srcVars, faults, local, cancelled, nextFetch, weff, fq, vq, sp, modeVars, curr, revSince, seenVers>>
+
+RevertEnd ==                          \* defer resetStreams()
+  /\ rv.on /\ rv.st = "fin"
+  /\ rv' = NoRv /\ cancelled' = TRUE
+  /\ UNCHANGED <<srcVars, faults, local, nextFetch, weff, fq, vq, sp, modeVars, curr, revSince, seenVers>>
 
 -----------------------------------------------------------------------------
 (* Stream reset and the latest-header poller *)
 
 Restart ==
-  /\ cancelled /\ fq = <<>> /\ vq = <<>> /\ ~rv.on
+  /\ cancelled /\ fq = <<>> /\ vq = <<>> /\ ~rv.on /\ ~sp.on
   /\ cancelled' = FALSE /\ nextFetch' = Len(local)
   /\ weff' = IF catchUp THEN W ELSE 1
-  /\ UNCHANGED <<srcVars, faults, local, fq, vq, rv, modeVars, curr, revSince, seenVers>>
+  /\ UNCHANGED <<srcVars, faults, local, fq, vq, rv, sp, modeVars, curr, revSince, seenVers>>
 
 PollCall(rid) ==                      \* observable: request BlockHeaderLatest (pollLatest)
   /\ poll.st = "idle" /\ polls < MaxPolls
-  /\ poll' = [st |-> "wait", v0 |-> Len(versions), rid |-> rid]
+  /\ poll' = [poll EXCEPT !.st = "wait", !.v0 = Len(versions), !.rid = rid]
   /\ UNCHANGED <<srcVars, faults, local, pipeVars, highest, catchUp, polls, curr, revSince, seenVers>>
 
 PollReturn(resp) ==                   \* observable
@@ -373,9 +424,17 @@ PollReturn(resp) ==                   \* observable
   /\ LegalLatestResp(poll.v0, resp)
   /\ faults' = faults + LatestRespCost(resp, FALSE)
   /\ seenVers' = Heard(resp)
-  /\ highest' = IF resp.r = "ok" THEN resp.h ELSE highest
-  /\ poll' = IdlePoll /\ polls' = polls + 1
+  /\ IF Fine
+     THEN poll' = [poll EXCEPT !.st = "got", !.got = IF resp.r = "ok" THEN resp.h ELSE -1]
+          /\ UNCHANGED <<highest, polls>>
+     ELSE highest' = (IF resp.r = "ok" THEN resp.h ELSE highest) /\ poll' = IdlePoll /\ polls' = polls + 1
   /\ UNCHANGED <<srcVars, local, pipeVars, catchUp, curr, revSince>>
+
+PollApply ==                          \* highestBlockHeader.Store(header)
+  /\ poll.st = "got"
+  /\ highest' = IF poll.got >= 0 THEN poll.got ELSE highest
+  /\ poll' = IdlePoll /\ polls' = polls + 1
+  /\ UNCHANGED <<srcVars, faults, local, pipeVars, catchUp, curr, revSince, seenVers>>
 
 -----------------------------------------------------------------------------
 Budget(c) == faults + c <= MaxFaults
@@ -402,15 +461,17 @@ NodeInternal ==
   \/ FetchCallback
   \/ \E i \in 1..Len(vq) : VerifyDone(i)
   \/ VerifyFail \/ StoreSkip \/ StoreErr \/ StoreMismatch \/ RevertStart
-  \/ RevertBreak
+  \/ StoreApply \/ StorePost
+  \/ RevertBreak \/ RevertUncond \/ RevertDo \/ RevertEnd
   \/ Restart
+  \/ PollApply
 
 Next ==
   \/ SrcExtend \/ SrcReorg
   \/ NodeInternal
   \/ \E i \in 1..Len(fq) : FetchCall(i, 0) \/ FetchReturnAny(i) \/ IsRevCall(i, 0) \/ IsRevReturnAny(i)
-  \/ StoreOK
-  \/ RevertUncond \/ RevertCall(0) \/ RevertDo \/ RevertReturnAny
+  \/ StoreAck \/ RevertAck
+  \/ RevertCall(0) \/ RevertReturnAny
   \/ PollCall(0) \/ PollReturnAny
 
 Spec == Init /\ [][Next]_vars
@@ -437,7 +498,7 @@ IsRevertStep == Len(local') = Len(local) - 1
 StoreSafe ==
   [][IsStoreStep =>
        /\ Prefix(local', Len(local)) = local
-       /\ Len(vq) > 0 /\ vq[1].st = "done" /\ vq[1].kind = "block" /\ ~vq[1].bad
+       /\ CallbackReady /\ vq[1].kind = "block" /\ ~vq[1].bad /\ ~cancelled
        /\ vq[1].blk = HeadTag(local')
        /\ ParentOf(HeadTag(local')) = HeadTag(local)]_vars
 
@@ -457,7 +518,7 @@ ReorgExact ==
   /\ curr.on <=> revSince # <<>>
   /\ curr.on => /\ curr.e = revSince[1] /\ curr.s = revSince[Len(revSince)]
                 /\ \A k \in 1..(Len(revSince) - 1) : ParentOf(revSince[k]) = revSince[k + 1]
-                /\ ParentOf(curr.s) = HeadTag(local)
+                /\ ~sp.on => ParentOf(curr.s) = HeadTag(local)
 
 Converged == local = Cur
 EventuallyConverges == <>[](local = Cur)
@@ -469,8 +530,9 @@ VSlots == 1..(WV + 2)
 Fairness ==
   /\ WF_vars(Spawn) /\ WF_vars(FetchCallback)
   /\ WF_vars(VerifyFail) /\ WF_vars(StoreSkip) /\ WF_vars(StoreErr) /\ WF_vars(StoreMismatch)
-  /\ WF_vars(StoreOK) /\ WF_vars(RevertStart)
+  /\ WF_vars(StoreApply) /\ WF_vars(StoreAck) /\ WF_vars(StorePost) /\ WF_vars(RevertStart)
   /\ WF_vars(RevertBreak) /\ WF_vars(RevertUncond) /\ WF_vars(RevertCall(0)) /\ WF_vars(RevertDo)
+  /\ WF_vars(RevertAck) /\ WF_vars(RevertEnd) /\ WF_vars(PollApply)
   /\ WF_vars(RevertReturnAny)
   /\ WF_vars(Restart)
   /\ WF_vars(PollCall(0)) /\ WF_vars(PollReturnAny)
